@@ -104,6 +104,11 @@ class Cfg:
             raise MirError('no call site matching /%s/ in %s' % (callee_re, self.name))
         return out
 
+    def find_blocks(self, stmt_re):
+        """Names of the (non-cleanup) blocks that contain a statement / terminator matching `stmt_re` (e.g. the assignment of the success value to
+        the return place: `_0 = ...::Ok(`)."""
+        return sorted([b for b, t in self.blocks.items() if b not in self.cleanup and re.search(stmt_re, t)], key=lambda b: int(b[2:]))
+
     def called_by_direct_callee(self, callee_re):
         """Is a call matching `callee_re` made by an in-crate function that THIS function calls directly?  (Used to tell
         'the check was moved into a helper' - cannot be decided intra-procedurally - from 'the check is gone'.)"""
